@@ -8,6 +8,9 @@
 // result (value or node rendering, error text, call count) is compared with the result of the same run
 // executed alone.  The race detector reports to stderr and makes the exit status 66.
 //
+// Before that, the construction validation phase (see constructionPhase) checks that parsers constructed by
+// many goroutines at the same moment behave like the same parsers constructed sequentially.
+//
 // stdout: one JSON object {"runs":..,"mismatches":..,"first_mismatch":..,"jobs":..,"samples":[..]}.
 package main
 
@@ -17,6 +20,7 @@ import (
 	"fmt"
 	"math/rand"
 	"os"
+	"runtime"
 	"strings"
 	"sync"
 	"sync/atomic"
@@ -24,6 +28,7 @@ import (
 
 	"github.com/opsidian/parsley/ast"
 	"github.com/opsidian/parsley/combinator"
+	"github.com/opsidian/parsley/data"
 	pjson "github.com/opsidian/parsley/examples/json/json"
 	"github.com/opsidian/parsley/parser"
 	"github.com/opsidian/parsley/parsley"
@@ -219,6 +224,155 @@ func selected(only, name string) bool {
 	return false
 }
 
+// ---------------------------------------------------------------------------------------------------
+// Validation of concurrently CONSTRUCTED parsers.  The rules of one grammar are built by several
+// goroutines at the same moment (spin barrier before every construction), each rule a memoized terminal
+// that recognises its own character (or its own word); the rules are then combined into one Choice / Any
+// and every rule's own input is parsed in one context.  Every rule must recognise exactly its own input,
+// exactly as the same grammar constructed sequentially does.  Two memoized parsers that were given the
+// same parser index share result-cache keys: the later alternative answers from the earlier one's cache
+// entry and rejects its own input.  (The race detector cannot see this: every access is atomic.)
+
+type barrier struct {
+	parties, arrived, generation int32
+}
+
+func (b *barrier) wait() {
+	g := atomic.LoadInt32(&b.generation)
+	if atomic.AddInt32(&b.arrived, 1) == b.parties {
+		atomic.StoreInt32(&b.arrived, 0)
+		atomic.AddInt32(&b.generation, 1)
+		return
+	}
+	for spins := 1; atomic.LoadInt32(&b.generation) == g; spins++ {
+		if spins%100 == 0 {
+			runtime.Gosched()
+		}
+	}
+}
+
+const firstRune = 0x4E00
+
+func ruleInput(n int, words bool) string {
+	if words {
+		return fmt.Sprintf("w%dx", n)
+	}
+	return string(rune(firstRune + n))
+}
+
+func buildRule(n int, words bool) parsley.Parser {
+	if words {
+		return combinator.Memoize(terminal.Word("word", ruleInput(n, true), n))
+	}
+	return combinator.Memoize(terminal.Rune(rune(firstRune + n)))
+}
+
+func ruleExpected(n int, words bool) string {
+	if words {
+		return fmt.Sprintf("value: %#v", n)
+	}
+	return fmt.Sprintf("value: %#v", rune(firstRune+n))
+}
+
+func evalRule(g parsley.Parser, input string) string {
+	f := text.NewFile("in", []byte(input))
+	ctx := parsley.NewContext(parsley.NewFileSet(f), text.NewReader(f))
+	v, err := parsley.Evaluate(ctx, g)
+	if err != nil {
+		return fmt.Sprintf("error: %v", err)
+	}
+	return fmt.Sprintf("value: %#v", v)
+}
+
+// collidesWith: the earlier rules m < n whose cache entry rule n answers from: in ONE context rule m is tried on
+// rule n's input (fails, result cached under m's parser index), then rule n on the same input
+func collidesWith(rules []parsley.Parser, n int, words bool) []int {
+	var res []int
+	in := ruleInput(n, words)
+	for m := 0; m < len(rules); m++ {
+		if m == n {
+			continue
+		}
+		f := text.NewFile("in", []byte(in))
+		ctx := parsley.NewContext(parsley.NewFileSet(f), text.NewReader(f))
+		pos := ctx.Reader().Pos(0)
+		rules[m].Parse(ctx, data.EmptyIntMap, pos)
+		node, _, _ := rules[n].Parse(ctx, data.EmptyIntMap, pos)
+		if node == nil {
+			res = append(res, m)
+		}
+	}
+	return res
+}
+
+type constructionResult struct {
+	Rounds   int      `json:"rounds"`
+	Rules    int      `json:"rules_checked"`
+	Failures int      `json:"failures"`
+	Report   []string `json:"report,omitempty"`
+}
+
+func constructionPhase(builders, perBuilder int, seconds float64, minRounds int) constructionResult {
+	var res constructionResult
+	deadline := time.Now().Add(time.Duration(seconds * float64(time.Second)))
+	for round := 0; round < minRounds || time.Now().Before(deadline); round++ {
+		words := round%2 == 1
+		useAny := round%4 >= 2
+		total := builders * perBuilder
+		rules := make([]parsley.Parser, total)
+		b := &barrier{parties: int32(builders)}
+		var wg sync.WaitGroup
+		for w := 0; w < builders; w++ {
+			wg.Add(1)
+			go func(w int) {
+				defer wg.Done()
+				for k := 0; k < perBuilder; k++ {
+					n := w*perBuilder + k
+					b.wait()
+					rules[n] = buildRule(n, words)
+				}
+			}(w)
+		}
+		wg.Wait()
+		// the same grammar constructed sequentially, by this goroutine alone
+		seq := make([]parsley.Parser, total)
+		for n := range seq {
+			seq[n] = buildRule(n, words)
+		}
+		combine := func(rs []parsley.Parser) parsley.Parser {
+			if useAny {
+				return combinator.Sentence(combinator.Any(rs...))
+			}
+			return combinator.Sentence(combinator.Choice(rs...))
+		}
+		conc, ref := combine(rules), combine(seq)
+		res.Rounds++
+		for n := 0; n < total; n++ {
+			in := ruleInput(n, words)
+			want := evalRule(ref, in)
+			got := evalRule(conc, in)
+			res.Rules++
+			if want != ruleExpected(n, words) {
+				res.Failures++
+				if len(res.Report) < 6 {
+					res.Report = append(res.Report, fmt.Sprintf("round %d: SEQUENTIALLY constructed grammar: rule %d on %q gives %s, expected %s", round, n, in, want, ruleExpected(n, words)))
+				}
+			}
+			if got != want {
+				res.Failures++
+				if len(res.Report) < 6 {
+					res.Report = append(res.Report, fmt.Sprintf("round %d (%d builders x %d memoized %s rules, combined by %s): rule %d on its own input %q gives %s; the same grammar constructed sequentially gives %s; rule %d answers from the result-cache entries of rule(s) %v (same parser index)",
+						round, builders, perBuilder, map[bool]string{false: "Rune", true: "Word"}[words], map[bool]string{false: "Choice", true: "Any"}[useAny], n, in, got, want, n, collidesWith(rules, n, words)))
+				}
+			}
+		}
+		if res.Failures > 0 {
+			break
+		}
+	}
+	return res
+}
+
 type mismatch struct {
 	Grammar, Input, Solo, Concurrent, Role string
 }
@@ -231,7 +385,22 @@ func main() {
 	seed := flag.Int64("seed", 1, "seed")
 	dump := flag.Bool("dump", false, "print the solo results and exit")
 	only := flag.String("grammars", "", "comma separated grammar name prefixes to use (default all)")
+	cseconds := flag.Float64("construct-seconds", 3, "time budget of the construction validation phase (0 = skip)")
+	cbuilders := flag.Int("builders", 16, "goroutines constructing rules at the same moment in the construction validation phase")
 	flag.Parse()
+
+	if runtime.GOMAXPROCS(0) < 4 {
+		runtime.GOMAXPROCS(4) // overlapping constructions need real parallelism
+	}
+	var cres constructionResult
+	if *cseconds > 0 && !*dump {
+		cres = constructionPhase(*cbuilders, 8, *cseconds, 4)
+		if cres.Failures > 0 {
+			out, _ := json.Marshal(map[string]interface{}{"construction": cres, "runs": cres.Rules, "mismatches": 0})
+			fmt.Println(string(out))
+			os.Exit(5)
+		}
+	}
 
 	shared := buildGrammars()
 	var jobs []job
@@ -354,8 +523,9 @@ func main() {
 	wg.Wait()
 
 	res := map[string]interface{}{
-		"runs": runs, "mismatches": mism, "jobs": len(jobs), "grammars": len(shared),
+		"runs": runs + int64(cres.Rules), "mismatches": mism, "jobs": len(jobs), "grammars": len(shared),
 		"distinct_nontrivial": nontrivial, "goroutines": *goroutines, "constructors": *constructors,
+		"construction": cres,
 	}
 	if m, ok := first.Load().(mismatch); ok {
 		res["first_mismatch"] = m
